@@ -92,8 +92,8 @@ CHECKS["C15"] = {
     "units": [
         unit("./internal", CORE_FILES, "^Harness_C15_Reverse_n[1-4]$", QT, flags={"labels": "^C15:"}),
         unit("./internal", CORE_FILES, "^Harness_C15_Reverse_n[56]$", T, flags={"labels": "^C15:"}),
-        unit("./internal/controller/ledger", ["ctrl/dbmodel.go", "ctrl/lib.go", "ctrl/c25.go", "ctrl/ops.go", "ctrl/ops_gen.go", "ctrl/revert.go", "ctrl/revert_gen.go", "ctrl/refreplay.go", "ctrl/events.go", "ctrl/events_gen.go", "ctrl/c36.go", "ctrl/c28.go", "ctrl/schema.go", "ctrl/conc.go", "ctrl/c37.go"], "^Harness_REVC_", QT, flags={"labels": "^C15:", "max-decisions": 4000}, reach=["end"]),
-        unit("./internal/controller/ledger", ["ctrl/dbmodel.go", "ctrl/lib.go", "ctrl/c25.go", "ctrl/ops.go", "ctrl/ops_gen.go", "ctrl/revert.go", "ctrl/revert_gen.go", "ctrl/refreplay.go", "ctrl/events.go", "ctrl/events_gen.go", "ctrl/c36.go", "ctrl/c28.go", "ctrl/schema.go", "ctrl/conc.go", "ctrl/c37.go"], "^Harness_REVS_", QT, flags={"labels": "^C15:", "max-decisions": 4000}, reach=["end"]),
+        unit("./internal/controller/ledger", ["ctrl/dbmodel.go", "ctrl/lib.go", "ctrl/c25.go", "ctrl/ops.go", "ctrl/ops_gen.go", "ctrl/revert.go", "ctrl/revert_gen.go", "ctrl/refreplay.go", "ctrl/events.go", "ctrl/events_gen.go", "ctrl/c36.go", "ctrl/c28.go", "ctrl/schema.go", "ctrl/conc.go", "ctrl/c37.go", "ctrl/c13fields.go"], "^Harness_REVC_", QT, flags={"labels": "^C15:", "max-decisions": 4000}, reach=["end"]),
+        unit("./internal/controller/ledger", ["ctrl/dbmodel.go", "ctrl/lib.go", "ctrl/c25.go", "ctrl/ops.go", "ctrl/ops_gen.go", "ctrl/revert.go", "ctrl/revert_gen.go", "ctrl/refreplay.go", "ctrl/events.go", "ctrl/events_gen.go", "ctrl/c36.go", "ctrl/c28.go", "ctrl/schema.go", "ctrl/conc.go", "ctrl/c37.go", "ctrl/c13fields.go"], "^Harness_REVS_", QT, flags={"labels": "^C15:", "max-decisions": 4000}, reach=["end"]),
     ],
 }
 
@@ -115,7 +115,7 @@ CHECKS["C03"] = {
     ],
 }
 
-CTRL_FILES = ["ctrl/dbmodel.go", "ctrl/lib.go", "ctrl/c25.go", "ctrl/ops.go", "ctrl/ops_gen.go", "ctrl/revert.go", "ctrl/revert_gen.go", "ctrl/refreplay.go", "ctrl/events.go", "ctrl/events_gen.go", "ctrl/c36.go", "ctrl/c28.go", "ctrl/schema.go", "ctrl/conc.go", "ctrl/c37.go"]
+CTRL_FILES = ["ctrl/dbmodel.go", "ctrl/lib.go", "ctrl/c25.go", "ctrl/ops.go", "ctrl/ops_gen.go", "ctrl/revert.go", "ctrl/revert_gen.go", "ctrl/refreplay.go", "ctrl/events.go", "ctrl/events_gen.go", "ctrl/c36.go", "ctrl/c28.go", "ctrl/schema.go", "ctrl/conc.go", "ctrl/c37.go", "ctrl/c13fields.go"]
 CTRL_PKG = "./internal/controller/ledger"
 DBMODEL_ASSUME = [
     "dbmodel (harness/ctrl/dbmodel.go) stands for the SQL store below the controller's Store interface: tables as Go values, transactional write sets applied on Commit and dropped on Rollback, autocommit on a non-transactional handle, unique keys (ledger,id), (ledger,reference), (ledger,idempotency_key), (ledger,address), non-transactional sequences, 'a failed statement aborts the transaction', transaction_date() constant inside a transaction. It is trusted, not verified (no PostgreSQL in the sandbox)",
@@ -164,11 +164,11 @@ CHECKS["C08"] = {
 
 CHECKS["C13"] = {
     "level": "other",
-    "explanation": "Sequential half of exactly-once: each write kind is sent twice with one idempotency key through the real forgeLog/fetchLogWithIK/ComputeIdempotencyHash on the store model (symbolic amounts): the replay succeeds, is flagged as a hit, returns the original log id/type and transaction, and the committed state equals the state after the first request (also for a DryRun replay); a different input under the same key is rejected with ErrInvalidIdempotencyInput and has no effect; with one store failure injected into the replay the caller gets a hit or the injected/retryable error, never a business error, and still no second effect.",
+    "explanation": "Sequential half of exactly-once: each write kind is sent twice with one idempotency key through the real forgeLog/fetchLogWithIK/ComputeIdempotencyHash on the store model (symbolic amounts): the replay succeeds, is flagged as a hit, returns the original log id/type and transaction, and the committed state equals the state after the first request (also for a DryRun replay); a different input under the same key is rejected with ErrInvalidIdempotencyInput and has no effect — also when it differs from the first in exactly one field (every field of every request kind: script, vars, timestamp, metadata, reference, account metadata, runtime; force, atEffectiveDate, transaction id, revert metadata; targets, keys and values of metadata writes and deletes), the different value being symbolic; with one store failure injected into the replay the caller gets a hit or the injected/retryable error, never a business error, and still no second effect.",
     "bounds": {"quick": OPS_LIST + "; 2-4 requests per key; <= 1 injected store failure in the replay", "thorough": "same"},
     "outside": "concurrent requests sharing a key (needs the thread scheduler on the store model: not covered yet)",
     "assumptions": COMMON_ASSUME + DBMODEL_ASSUME,
-    "units": ctrl_units(["OPS_ik", "OPS_ikfault", "SYM_ik", "SYM_ikfault"], [], "^C13:"),
+    "units": ctrl_units(["OPS_ik", "OPS_ikfault", "SYM_ik", "SYM_ikfault", "C13F"], [], "^C13:"),
 }
 
 CHECKS["C02"] = {
@@ -519,9 +519,9 @@ CHECKS["C16"] = {
 
 CHECKS["C09"] = {
     "level": "other",
-    "explanation": "Linearity of the chain: InsertLog of the real store takes pg_advisory_xact_lock(ledger id) iff HASH_LOGS=SYNC (captured SQL per feature set, checked under C35's captures); on the store model in concurrent mode, where set_log_hash chains a new log on the log with the greatest id visible to the statement, two concurrent writers in every interleaving never chain from the same predecessor and the chain follows log-id order. The content of the hash (framing vs. the Go function) is C10; its schema-version gap is recorded there.",
+    "explanation": "Linearity of the chain: InsertLog of the real store takes pg_advisory_xact_lock(ledger id) iff HASH_LOGS=SYNC (captured SQL per feature set, checked under C35's captures); on the store model in concurrent mode, where set_log_hash chains a new log on the log with the greatest id visible to the statement, two concurrent writers in every interleaving never chain from the same predecessor and the chain follows log-id order. Recomputation: the text the insert trigger hashes (read from the migrations) against the text Log.ComputeHash hashes (struct read from internal/log.go), free fields symbolic, decided by z3 (the machinery of C10); the schema-version gap of the trigger is a recorded finding.",
     "bounds": {"quick": "2 concurrent writers, all interleavings, HASH_LOGS=SYNC", "thorough": "same"},
     "outside": "the hash value itself (opaque in the model: predecessor id only); recomputation from exported logs; more than two writers; the advisory-lock implementation of PostgreSQL",
     "assumptions": COMMON_ASSUME + CONC_ASSUME,
-    "units": [conc_unit("^Harness_CONC_ids_sync$", "^(C09:|no-panic)")],
+    "units": [conc_unit("^Harness_CONC_ids_sync$", "^(C09:|no-panic)"), py_unit("c10_hash", "c09-recompute", ["--prop", "C09"])],
 }
